@@ -640,6 +640,8 @@ func (c *Collection) writeWithXattrs(
 		if exp != nil {
 			e.exp = absoluteExpiry(*exp)
 		}
+		// A row without a body is a tombstone, also when it is created here with xattrs only:
+		e.isDeletion = (e.value == nil)
 
 		err = c.storeDocument(txn, e)
 		if err != nil {
